@@ -110,7 +110,7 @@ void HttpServer::serve(Socket client)
 				if (parts.length() == 2)
 				{
 					int begin = parts[0];
-					int end = parts[1];
+					int end = parts[1].ok() ? (int)parts[1] : -1; // "bytes=5-": up to the last byte
 					response.setCode(206);
 					response.setHeader("Content-Range", "+");
 					response.putFile(file.path(), begin, end);
@@ -121,6 +121,7 @@ void HttpServer::serve(Socket client)
 				if (response.hasHeader("Content-Range") && response.header("Content-Range").contains('*'))
 				{
 					response.setCode(416);
+					response.put(""); // no longer a file body: only the status and the Content-Range header are sent
 					response.write();
 				}
 			}
